@@ -310,5 +310,9 @@ def run(chk, prog):
                                                                                 "vfps::WakeKickMap", "vfps::WakePotentialMap", "vfps::DynamicRFKickMap"))
     chk.floor("R9-integral-conversions", nconv_, 40)
     chk.ok("R9", "src/SM", "%d integral conversions in the kick/drift map classes examined: no cell index or size passes through an 8/16-bit integer" % nconv_)
+    # ---- R10: a zero offset is a zero displacement: the centre updateSM adds is the centre apply subtracts ------------------------------------
+    # (a half-cell bias on odd grids turns every whole-cell shift into a fractional one; decided under C01 R2, re-evaluated here)
+    from .common import reeval
+    reeval(chk, prog, "C01", lambda i: i["rule"] == "R2" and "centre" in i["what"], "R10", "R10-centre-agreement", 1)
     chk.notes.append("C02: Lagrange/partition-of-unity identities for orders 1-4 over nodes read from updateSM/genHInfo; "
                      "exact-zero structure at f=0; frac/ipart pairing; bounds-guarded weights. Not decided: rounding over all floats.")
